@@ -123,6 +123,31 @@ theorem exec_fit_compose_remove {F : Type} [Field F] (sqrtN : ℕ → F) (cos si
     rw [ec, remove_span_zero _ h] at e
     exact e
 
+/-- **the hypothesis is the property's "linearly independent"**: over a linearly ordered field (ℝ, ℚ) `BᵀB` is invertible iff `c ↦ B·c` is
+injective iff the columns of `B` — the requested modes sampled on the array — are linearly independent -/
+theorem independence_hypothesis_iff {F : Type} [Field F] [LinearOrder F] [IsStrictOrderedRing F] (B : Matrix P M F) :
+    (IsUnit (Bᵀ * B).det ↔ Function.Injective B.mulVec) ∧ (IsUnit (Bᵀ * B).det ↔ LinearIndependent F B.col) := gram_unit_iff B
+
+/-- **the call wiring of the code** (`Gen.fitBasisArgs`, `Gen.removeFitArgs`, `Gen.removeBasisArgs` are re-translated from the call sites
+in `zernike_fit` / `zernike_remove` on every run): with it, `zernike_fit` is the fit over the basis of *its own* modes, normalisation and
+coordinates, and `zernike_remove` fits and subtracts over one and the same normalised basis of the caller's modes and coordinates — the
+statement whose failure was defect D15. An edit to the argument lists changes the generated projections and breaks this theorem. -/
+theorem remove_wiring {F : Type} [Field F] (sqrtN : ℕ → F) (cos sin : F → F) (p k : ℕ)
+    (a : Gen.RemoveArgs (ℕ → F) (ℕ → Bool) (ℕ → ℕ) (ℕ → F)) (fa : Gen.FitArgs (ℕ → F) (ℕ → Bool) (ℕ → ℕ) (ℕ → F)) :
+    fitA sqrtN cos sin p k fa = fitX p k (zBasisX sqrtN cos sin fa.modes fa.normalize fa.rho fa.theta fa.mask) fa.opd ∧
+    removeA sqrtN cos sin p k a = removeX p k (zBasisX sqrtN cos sin a.modes true a.rho a.theta a.mask) a.opd :=
+  ⟨rfl, rfl⟩
+
+/-- outside the mask `zernike_remove` leaves the OPD untouched (the basis rows vanish there), and the fit does not depend on the OPD
+there -/
+theorem remove_keeps_outside_mask {F : Type} [Field F] (sqrtN : ℕ → F) (cos sin : F → F) (p k : ℕ) (modes : ℕ → ℕ) (normalize : Bool)
+    (rho theta : ℕ → F) (mask : ℕ → Bool) (opd opd' : ℕ → F) :
+    (∀ s, mask s = false → removeX p k (zBasisX sqrtN cos sin modes normalize rho theta mask) opd s = opd s) ∧
+    ((∀ s, s < p → mask s = true → opd s = opd' s) →
+      ∀ a, fitX p k (zBasisX sqrtN cos sin modes normalize rho theta mask) opd a
+         = fitX p k (zBasisX sqrtN cos sin modes normalize rho theta mask) opd' a) :=
+  remove_outside_mask sqrtN cos sin p k modes normalize rho theta mask opd opd'
+
 /-- `zernike_compose` takes a coefficient vector indexed by Noll index − 1 (`Gen.composeNoll`, regenerated from the source): with the
 coefficients of the requested modes at their positions it composes `B·c` -/
 theorem compose_positions {F : Type} [Field F] (sqrtN : ℕ → F) (cos sin : F → F) (k L : ℕ) (modes : ℕ → ℕ) (c : ℕ → F) (normalize : Bool)
@@ -137,5 +162,12 @@ sampled at ρ = 0, 1/2, 1 on the ray θ = 0, over ℚ: the model's basis matrix 
 theorem zernike_basis_independent_instance :
     blockOf 3 3 exBasis = !![1, -1, 0; 1, -1/2, 1/2; 1, 1, 1] ∧ IsUnit ((blockOf 3 3 exBasis)ᵀ * blockOf 3 3 exBasis).det :=
   ⟨exBasis_entries, exBasis_independent⟩
+
+/-- … and by a 2 × 2 array with a cosine, a sine and a radial mode: modes [2, 3, 4] (x-tilt, y-tilt with m = −1, defocus), unnormalised,
+samples (ρ, θ) = (1, 0), (1, π/2), (1/2, π), (0, 0) with cos/sin as exact tables at multiples of π/2: the model's basis matrix is
+`[[1,0,1],[0,−1,1],[−1/2,0,−1/2],[0,0,−1]]` and `det(BᵀB) = 5/4` -/
+theorem zernike_basis_independent_instance_2d :
+    blockOf 4 3 ex2Basis = !![1, 0, 1; 0, -1, 1; -1/2, 0, -1/2; 0, 0, -1] ∧ IsUnit ((blockOf 4 3 ex2Basis)ᵀ * blockOf 4 3 ex2Basis).det :=
+  ⟨ex2Basis_entries, ex2Basis_independent⟩
 
 end Lentil.C12
